@@ -198,6 +198,18 @@ def intrude(v, srv, clients, what, cfg, replay):
 def _intrude_with(v, srv, clients, kind, target, cfg, replay, s):
     # one attempt with a generous timeout: a second attempt could mask a reply that is only missing the first time
     try:
+        if kind == "RRQ-SPECIAL":
+            # a foreign endpoint asks for a file that cannot be opened at once (a FIFO nobody writes to): whatever it is
+            # told, the other endpoints' transfers go on (checked by the schedule) and the listener keeps answering
+            # (asked from a socket of its own: that endpoint may own a transfer afterwards)
+            q = N._sock(srv.family, timeout=0.2)
+            q.sendto(N.enc_req(N.RRQ, "pipe.fifo", options=[("timeout", 1)]), srv.addr)
+            try:
+                q.recvfrom(2048)
+            except (socket.timeout, OSError):
+                pass
+            q.close()
+            kind = "ACK"
         pkt = {"ACK": N.enc_ack(1), "DATA": N.enc_data(1, b"intruder payload"), "ERROR": N.enc_error(0, b"intruder"), "OACK": N.enc_oack([("blksize", 8)]), "ACK2": N.enc_ack(2), "DATA2": N.enc_data(2, b"x" * 512)}[kind]
         if target == "listen":
             s.sendto(pkt, srv.addr)
@@ -361,6 +373,10 @@ def run(tier):
             continue
         with srv_cm as srv:
             tagn = 0
+            try:
+                os.mkfifo(os.path.join(sb["srv"], "pipe.fifo"))
+            except OSError:
+                pass
             mt_out = {}
             # on a server of its own (every other request would touch whatever state the listener shares between transfers)
             mt_sb = ctx.sandbox("c12mt")
@@ -393,8 +409,10 @@ def run(tier):
                     schedules.add((cfg, "same-port", roles, order))
             classes[f"same-port-different-address:{cfg}"] = 210
             # intruders at every position of a K=2 schedule
-            for kind in ("ACK", "DATA", "ERROR", "OACK"):
+            for kind in ("ACK", "DATA", "ERROR", "OACK", "RRQ-SPECIAL"):
                 for target in (("listen", "listen-same-port") if single else ("listen", "transfer-port", "listen-same-port")):
+                    if kind == "RRQ-SPECIAL" and target != "listen":
+                        continue
                     for pos in range(0, 8):
                         tagn += 1
                         evaluations += 1
